@@ -19,6 +19,18 @@ def _skip_thunder_protection(func: DecoratedFunc) -> DecoratedFunc:
     return func
 
 
+def _all_of(time_condition, condition):
+    if condition is None:
+        return time_condition
+
+    def _condition(result, args, kwargs, key=""):
+        if not time_condition(result, args, kwargs, key=key):
+            return False
+        return condition(result, args, kwargs, key=key)
+
+    return _condition
+
+
 class DecoratorsWrapper(Wrapper):
     _default_fail_exceptions: tuple[type[Exception], ...] = (Exception,)
 
@@ -42,12 +54,14 @@ class DecoratorsWrapper(Wrapper):
         **decor_kwargs,
     ) -> Callable[[DecoratedFunc], DecoratedFunc]:
         def _decorator(func: DecoratedFunc) -> DecoratedFunc:
+            _decor_kwargs = decor_kwargs
             if time_condition is not None:
                 condition, _decor = create_time_condition(time_condition)
                 func = _decor(func)
-                decor_kwargs["condition"] = condition
+                # the time condition does not replace the condition of the decorator: a result is stored if both accept it
+                _decor_kwargs = {**decor_kwargs, "condition": _all_of(condition, decor_kwargs.get("condition"))}
 
-            decorator = decorator_fabric(self, **decor_kwargs)(func)
+            decorator = decorator_fabric(self, **_decor_kwargs)(func)
             thunder_protection: Callable[[DecoratedFunc], DecoratedFunc] = _skip_thunder_protection
             if protected:
                 thunder_protection = decorators.thunder_protection(key=decor_kwargs.get("key"))
@@ -83,7 +97,8 @@ class DecoratorsWrapper(Wrapper):
         def _decorator(func: AsyncCallable_T) -> AsyncCallable_T:
             _condition = condition
             if time_condition is not None:
-                _condition, _decor = create_time_condition(time_condition)
+                _time_condition, _decor = create_time_condition(time_condition)
+                _condition = _all_of(_time_condition, condition)
                 func = _decor(func)
             decorator_fabric(self, **decor_kwargs)(func)  # to register cache templates
 
